@@ -279,4 +279,19 @@ def mdocTilts (sort : Bool) (m : Mdoc) : List Rat :=
   let ts := m.rows.map (Row.tiltAt i)
   if sort then ts.mergeSort (fun a b => decide (a ≤ b)) else ts
 
+/-! ### operation sequences (what the console scripts `remove_images`, `sort_mdoc_by_tilt_angles` chain) -/
+inductive Op where
+  | sort                                          -- `sort_by_tilt()`
+  | remove (idxs : List Int) (keptOnly : Bool)    -- `remove_images(idxs, kept_only)`
+deriving Repr, DecidableEq
+
+def Op.apply : Op → Mdoc → Option Mdoc
+  | .sort, m => some (sortByTilt false m)
+  | .remove idxs k, m => removeImages idxs k m
+
+/-- run the operations in order; `none` as soon as one raises -/
+def applyOps : List Op → Mdoc → Option Mdoc
+  | [], m => some m
+  | o :: os, m => (o.apply m).bind (applyOps os)
+
 end CryoCat.C17
